@@ -12,9 +12,10 @@ import (
 var errWriterClosed = errors.New("flate: closed writer")
 
 type Writer struct {
-	err error
-	lc  LevelCompressor
-	w   *flate.Writer
+	err    error
+	closed bool // a Close has succeeded; err then holds errWriterClosed for the calls that must fail
+	lc     LevelCompressor
+	w      *flate.Writer
 }
 
 func NewWriterwWith4KWindow(under io.Writer, level int) (w *Writer, err error) {
@@ -99,6 +100,7 @@ func (w *Writer) Write(data []byte) (n int, err error) {
 
 func (w *Writer) Reset(under io.Writer) {
 	w.err = nil
+	w.closed = false
 	if w.w != nil {
 		w.w.Reset(under)
 		return
@@ -122,7 +124,9 @@ func (w *Writer) Flush() (err error) {
 }
 
 func (w *Writer) Close() (err error) {
-	if w.err == errWriterClosed {
+	if w.closed {
+		// (not w.err == errWriterClosed: the destination may itself be a closed
+		// Writer and fail with that very value)
 		return nil
 	}
 	if w.err != nil {
@@ -135,6 +139,7 @@ func (w *Writer) Close() (err error) {
 	}
 	if err == nil {
 		w.err = errWriterClosed
+		w.closed = true
 	} else {
 		w.err = err
 	}
